@@ -353,7 +353,7 @@ func init() {
 		return &TupleV{V: []Value{App("atoi."+c.modeTag(), c.IntSort(), id), IfaceV{Sym: Fresh("atoi.err", IntSort)}}}
 	}
 	// sync primitives: ghost events (the lock discipline itself is checked by the C10/C19 obligations)
-	for _, n := range []string{"(*sync.Mutex).Lock", "(*sync.Mutex).Unlock", "(*sync.RWMutex).Lock", "(*sync.RWMutex).Unlock", "(*sync.RWMutex).RLock", "(*sync.RWMutex).RUnlock"} {
+	for _, n := range []string{"(*sync.Mutex).Lock", "(*sync.Mutex).Unlock", "(*sync.RWMutex).Lock", "(*sync.RWMutex).Unlock", "(*sync.RWMutex).RLock", "(*sync.RWMutex).RUnlock", "(*sync.WaitGroup).Done", "(*sync.WaitGroup).Add", "(*sync.WaitGroup).Wait"} {
 		name := n
 		intrinsics[name] = func(c *Ctx, st *State, in ssa.Instruction, args []Value) Value {
 			st.CallLog = append(st.CallLog, CallRec{Callee: name, Args: args})
@@ -386,3 +386,60 @@ var symbolicStrIntrinsics = map[string]intrinsicFn{}
 
 // notIntrinsic: returned by a conditional intrinsic that declines (the callee is then executed from its source).
 type notIntrinsic struct{}
+
+// bytes.HasPrefix / bytes.Equal with one concrete side: expanded element by element (exact).
+func init() {
+	// elemAt reads element k of a byte slice (concrete or heap) as a term.
+	elemAt := func(c *Ctx, st *State, s SliceV, k *Term) *Term {
+		if s.Heap {
+			v, _ := c.heapRead(st, s.Elem, s.Ref, Arith("+", s.Off, k), nil).(*Term)
+			return v
+		}
+		av := c.mem(st, s.Obj).(*ArrayV)
+		v, _ := c.readPath(st, av, []PathElem{{Idx: Arith("+", c.idx(int64(s.COff)), k)}}).(*Term)
+		return v
+	}
+	concreteLen := func(s SliceV) (int, bool) {
+		if s.Heap {
+			return 0, false
+		}
+		if s.Obj == nil {
+			return 0, true
+		}
+		return s.CLen, true
+	}
+	intrinsics["bytes.HasPrefix"] = func(c *Ctx, st *State, in ssa.Instruction, args []Value) Value {
+		s, ok1 := args[0].(SliceV)
+		p, ok2 := args[1].(SliceV)
+		if !ok1 || !ok2 {
+			return notIntrinsic{}
+		}
+		if n, ok := concreteLen(p); ok {
+			// HasPrefix(s, concrete prefix of length n)
+			cs := []*Term{Cmp(">=", c.sliceLen(s), c.idx(int64(n)), true)}
+			for k := 0; k < n; k++ {
+				a, b := elemAt(c, st, s, c.idx(int64(k))), elemAt(c, st, p, c.idx(int64(k)))
+				if a == nil || b == nil {
+					return notIntrinsic{}
+				}
+				cs = append(cs, Eq(a, b))
+			}
+			// reading s[k] for k beyond len(s) is guarded by the length conjunct
+			return And(cs...)
+		}
+		if n, ok := concreteLen(s); ok {
+			// HasPrefix(concrete s of length n, symbolic prefix): len(prefix) <= n and it agrees with s on its length
+			pl := c.sliceLen(p)
+			cs := []*Term{Cmp("<=", pl, c.idx(int64(n)), true)}
+			for k := 0; k < n; k++ {
+				a, b := elemAt(c, st, s, c.idx(int64(k))), elemAt(c, st, p, c.idx(int64(k)))
+				if a == nil || b == nil {
+					return notIntrinsic{}
+				}
+				cs = append(cs, Implies(Cmp("<", c.idx(int64(k)), pl, true), Eq(a, b)))
+			}
+			return And(cs...)
+		}
+		return notIntrinsic{}
+	}
+}
